@@ -228,6 +228,25 @@ pub fn gen_func(
     };
     let mut epilogue: Vec<Insn> = Vec::new();
     match (arch, shape) {
+        (Arch::A64, Shape::Leaf) => {
+            // arm64 frameless functions (lr never saved) may still have locals: `sub sp, sp, #n`
+            // or, for multiples of 4096, `sub sp, sp, #k, lsl #12`, or both
+            if p.chance(1, 2) {
+                let big = if p.chance(1, 2) { 1 + p.below(15) } else { 0 };
+                let lim = if p.chance(1, 4) { 254 } else { 12 };
+                let small = if big == 0 || p.chance(1, 3) { 16 * (1 + p.below(lim)) } else { 0 };
+                if big > 0 {
+                    insns.push(a64(0xd140_03ff | ((big as u32) << 10), Eff::SubSp(big << 12)));
+                }
+                if small > 0 {
+                    insns.push(a64(0xd100_03ff | ((small as u32) << 10), Eff::SubSp(small)));
+                    epilogue.push(a64(0x9100_03ff | ((small as u32) << 10), Eff::AddSp(small)));
+                }
+                if big > 0 {
+                    epilogue.push(a64(0x9140_03ff | ((big as u32) << 10), Eff::AddSp(big << 12)));
+                }
+            }
+        }
         (_, Shape::Leaf) => {}
         (Arch::X64, Shape::FramePointer) => {
             insns.push(Insn { bytes: vec![0x55], eff: Eff::PushFp });
